@@ -89,6 +89,11 @@ def compare(r1, r2, keys, ytol, exact=False, yfloor=None):
         pk = {"amu1L": "parts.1L.", "amu2LF": "parts.2LF.", "amu2L": "parts.2LF."}.get(k)
         if pk:
             tol += 4.0 * sum(noise[s] * max(abs(r1[pk + s]), abs(r2[pk + s])) for s in noise)
+            # a scalar given as exactly massless comes back with a mass that is a rounding residue (1e-6 GeV from
+            # sqrt of 1e-12 GeV^2); its part ~ (rounding-level couplings)/m^2 has no stable value in either twin
+            for s, mk in (("h", "Mhh.0"), ("H", "Mhh.1"), ("A", "MAh.1"), ("Hp", "MHm.1")):
+                if min(r1[mk], r2[mk]) < 1e-3:
+                    tol += abs(r1[pk + s]) + abs(r2[pk + s])
         # the charged Barr-Zee functions are only required (C02) to be accurate to 1e-6; the twins evaluate them at
         # arguments that differ by ulps, so the charged part carries up to that much uncorrelated noise
         if k in ("amu2LF", "amu2L"):
